@@ -10,6 +10,7 @@ MODULES = {
     "C11": "props.c11",
     "C15": "props.c15",
     "C16": "props.c16",
+    "C17": "props.c17",
 }
 
 if __name__ == "__main__":
